@@ -561,14 +561,108 @@ theorem Diagram.transpose_wf {d d' : Diagram} {left : Bool} (hd : d.WF)
       (fun x hx => tensor3_wf (hid _) (ok_wf_of hd) (hid _) hx)
       (fun x hx => tensor3_wf (hid _) (hcups _ _) (hid _) hx) h
 
+/-! ### The n-ary calling convention of `then` / `tensor` (cat.py:307-310, monoidal.py:384-385,
+   monoidal.py:419-422)
+
+  `Junctions c bs`: reading the arguments from the type `c` the receiver ends on, every argument
+  starts where the one before it ends — *including* the first one, which has to start on `c`. -/
+
+/-- Every junction of `recv.then(b₁, …, bₙ)` matches: `c = b₁.dom`, `b₁.cod = b₂.dom`, … -/
+def Junctions : Ty → List Diagram → Prop
+  | _, [] => True
+  | c, b :: bs => c = b.dom ∧ Junctions b.cod bs
+
+/-- The codomain the n-ary composite ends on: that of the last argument (of the receiver if there
+    is no argument). -/
+def lastCod : Ty → List Diagram → Ty
+  | c, [] => c
+  | _, b :: bs => lastCod b.cod bs
+
+theorem Diagram.thenN_props {a d : Diagram} {bs : List Diagram} (ha : a.WF)
+    (hbs : ∀ b ∈ bs, b.WF) (h : a.thenN bs = .ok d) :
+    d.WF ∧ d.dom = a.dom ∧ d.cod = lastCod a.cod bs ∧
+      d.boxes = a.boxes ++ (bs.map (·.boxes)).flatten := by
+  induction bs generalizing a with
+  | nil => simp only [Diagram.thenN, Except.ok.injEq] at h; subst h; exact ⟨ha, rfl, rfl, by simp⟩
+  | cons b bs ih =>
+    simp only [Diagram.thenN] at h
+    split at h
+    · cases h
+    · rename_i x hx
+      have hb := hbs b (List.mem_cons_self ..)
+      obtain ⟨xw, xd, xc⟩ := Diagram.then_props ha hb hx
+      obtain ⟨w, dd, dc, db⟩ := ih xw (fun b' hb' => hbs b' (List.mem_cons_of_mem _ hb')) h
+      refine ⟨w, dd.trans xd, by rw [dc, xc]; rfl, ?_⟩
+      obtain ⟨ls, _, rfl⟩ := Diagram.then_ok hx
+      simp [db]
+
+/-- The n-ary composition of well-typed diagrams is accepted exactly when every junction matches,
+    the one between the receiver and the first argument included (whatever the receiver is: an
+    identity is no exception). -/
+theorem Diagram.thenN_ok_iff {a : Diagram} {bs : List Diagram} (ha : a.WF) (hbs : ∀ b ∈ bs, b.WF) :
+    (∃ d, a.thenN bs = .ok d) ↔ Junctions a.cod bs := by
+  induction bs generalizing a with
+  | nil => simp [Diagram.thenN, Junctions]
+  | cons b bs ih =>
+    have hb := hbs b (List.mem_cons_self ..)
+    have hrest : ∀ b' ∈ bs, b'.WF := fun b' hb' => hbs b' (List.mem_cons_of_mem _ hb')
+    constructor
+    · rintro ⟨d, h⟩
+      simp only [Diagram.thenN] at h
+      split at h
+      · cases h
+      · rename_i x hx
+        obtain ⟨xw, _, xc⟩ := Diagram.then_props ha hb hx
+        exact ⟨(Diagram.then_ok_iff ha hb).mp ⟨x, hx⟩, xc ▸ (ih xw hrest).mp ⟨d, h⟩⟩
+    · rintro ⟨h1, h2⟩
+      obtain ⟨x, hx⟩ := (Diagram.then_ok_iff ha hb).mpr h1
+      obtain ⟨xw, _, xc⟩ := Diagram.then_props ha hb hx
+      obtain ⟨d, hd⟩ := (ih xw hrest).mpr (xc ▸ h2)
+      exact ⟨d, by simp [Diagram.thenN, hx, hd]⟩
+
+/-- … and refused with an axiom error otherwise. -/
+theorem Diagram.thenN_refused {a : Diagram} {bs : List Diagram} (ha : a.WF) (hbs : ∀ b ∈ bs, b.WF)
+    (h : ¬ Junctions a.cod bs) : a.thenN bs = .error .axiom := by
+  induction bs generalizing a with
+  | nil => simp [Junctions] at h
+  | cons b bs ih =>
+    have hb := hbs b (List.mem_cons_self ..)
+    by_cases h1 : a.cod = b.dom
+    · obtain ⟨x, hx⟩ := (Diagram.then_ok_iff ha hb).mpr h1
+      obtain ⟨xw, _, xc⟩ := Diagram.then_props ha hb hx
+      have : ¬ Junctions x.cod bs := fun hj => h ⟨h1, xc ▸ hj⟩
+      simp [Diagram.thenN, hx, ih xw (fun b' hb' => hbs b' (List.mem_cons_of_mem _ hb')) this]
+    · simp [Diagram.thenN, Diagram.then_err ha hb h1]
+
+/-- The n-ary tensor of well-typed diagrams always succeeds and is well-typed, from the
+    concatenated domains to the concatenated codomains. -/
+theorem Diagram.tensorN_props {a : Diagram} {bs : List Diagram} (ha : a.WF) (hbs : ∀ b ∈ bs, b.WF) :
+    ∃ d, a.tensorN bs = .ok d ∧ d.WF ∧ d.dom = a.dom ++ (bs.map (·.dom)).flatten ∧
+      d.cod = a.cod ++ (bs.map (·.cod)).flatten := by
+  induction bs generalizing a with
+  | nil => exact ⟨a, rfl, ha, by simp, by simp⟩
+  | cons b bs ih =>
+    have hb := hbs b (List.mem_cons_self ..)
+    obtain ⟨x, hx⟩ := Diagram.tensor_total ha hb
+    obtain ⟨xw, xd, xc⟩ := Diagram.tensor_props ha hb hx
+    obtain ⟨d, hd, w, dd, dc⟩ := ih xw (fun b' hb' => hbs b' (List.mem_cons_of_mem _ hb'))
+    exact ⟨d, by simp [Diagram.tensorN, hx, hd], w, by simp [dd, xd], by simp [dc, xc]⟩
+
+theorem Diagram.tensorN_wf {a d : Diagram} {bs : List Diagram} (ha : a.WF) (hbs : ∀ b ∈ bs, b.WF)
+    (h : a.tensorN bs = .ok d) : d.WF := by
+  obtain ⟨d', hd', w, _⟩ := Diagram.tensorN_props ha hbs
+  rw [hd'] at h; cases h; exact w
+
+
 /-! ### Closure: every expression of the op language evaluates to a well-typed diagram -/
 
+mutual
 theorem Expr.eval_wf (e : Expr) {d : Diagram} (h : e.eval = .ok d) : d.WF := by
-  induction e generalizing d with
-  | mk dom cod boxes offsets => exact Diagram.mk?_wf h
-  | box b => simp [Expr.eval] at h; subst h; exact Diagram.ofBox_wf b
-  | id t => simp [Expr.eval] at h; subst h; exact Diagram.id_wf t
-  | «then» a b iha ihb =>
+  match e with
+  | .mk dom cod boxes offsets => exact Diagram.mk?_wf h
+  | .box b => simp [Expr.eval] at h; subst h; exact Diagram.ofBox_wf b
+  | .id t => simp [Expr.eval] at h; subst h; exact Diagram.id_wf t
+  | .then a b =>
     simp only [Expr.eval] at h
     split at h
     · cases h
@@ -576,8 +670,8 @@ theorem Expr.eval_wf (e : Expr) {d : Diagram} (h : e.eval = .ok d) : d.WF := by
       split at h
       · cases h
       · rename_i y hy
-        exact Diagram.then_wf (iha hx) (ihb hy) h
-  | tensor a b iha ihb =>
+        exact Diagram.then_wf (Expr.eval_wf a hx) (Expr.eval_wf b hy) h
+  | .tensor a b =>
     simp only [Expr.eval] at h
     split at h
     · cases h
@@ -585,45 +679,81 @@ theorem Expr.eval_wf (e : Expr) {d : Diagram} (h : e.eval = .ok d) : d.WF := by
       split at h
       · cases h
       · rename_i y hy
-        exact Diagram.tensor_wf (iha hx) (ihb hy) h
-  | dagger a iha =>
+        exact Diagram.tensor_wf (Expr.eval_wf a hx) (Expr.eval_wf b hy) h
+  | .dagger a =>
     simp only [Expr.eval] at h
     split at h
     · cases h
-    · rename_i x hx; cases h; exact Diagram.dagger_wf (iha hx)
-  | slice a s t iha =>
+    · rename_i x hx; cases h; exact Diagram.dagger_wf (Expr.eval_wf a hx)
+  | .slice a s t =>
     simp only [Expr.eval] at h
     split at h
     · cases h
-    · rename_i x hx; exact Diagram.slice_wf s t (iha hx) h
-  | sliceRev a s t iha =>
+    · rename_i x hx; exact Diagram.slice_wf s t (Expr.eval_wf a hx) h
+  | .sliceRev a s t =>
     simp only [Expr.eval] at h
     split at h
     · cases h
-    · rename_i x hx; exact Diagram.sliceRev_wf s t (iha hx) h
-  | getItem a i iha =>
+    · rename_i x hx; exact Diagram.sliceRev_wf s t (Expr.eval_wf a hx) h
+  | .getItem a i =>
     simp only [Expr.eval] at h
     split at h
     · cases h
     · exact Diagram.getItem_wf i h
-  | interchange a i j left iha =>
+  | .interchange a i j left =>
     simp only [Expr.eval] at h
     split at h
     · cases h
-    · rename_i x hx; exact (Diagram.interchange_wf (iha hx) h).1
-  | normalForm a left iha =>
+    · rename_i x hx; exact (Diagram.interchange_wf (Expr.eval_wf a hx) h).1
+  | .normalForm a left =>
     simp only [Expr.eval] at h
     split at h
     · cases h
-    · rename_i x hx; exact (Diagram.normalForm_wf (iha hx) h).1
-  | swap l r => exact (Diagram.swap_props h).1
-  | perm p dom => exact (Diagram.permutation_props h).1
-  | cups l r => exact Diagram.cups_wf h
-  | caps l r => exact Diagram.caps_wf h
-  | transpose a left iha =>
+    · rename_i x hx; exact (Diagram.normalForm_wf (Expr.eval_wf a hx) h).1
+  | .swap l r => exact (Diagram.swap_props h).1
+  | .perm p dom => exact (Diagram.permutation_props h).1
+  | .cups l r => exact Diagram.cups_wf h
+  | .caps l r => exact Diagram.caps_wf h
+  | .transpose a left =>
     simp only [Expr.eval] at h
     split at h
     · cases h
-    · rename_i x hx; exact Diagram.transpose_wf (iha hx) h
+    · rename_i x hx; exact Diagram.transpose_wf (Expr.eval_wf a hx) h
+  | .thenN r args =>
+    simp only [Expr.eval] at h
+    split at h
+    · cases h
+    · rename_i x hx
+      split at h
+      · cases h
+      · rename_i xs hxs
+        exact (Diagram.thenN_props (Expr.eval_wf r hx) (Expr.evalList_wf args hxs) h).1
+  | .tensorN r args =>
+    simp only [Expr.eval] at h
+    split at h
+    · cases h
+    · rename_i x hx
+      split at h
+      · cases h
+      · rename_i xs hxs
+        exact Diagram.tensorN_wf (Expr.eval_wf r hx) (Expr.evalList_wf args hxs) h
+theorem Expr.evalList_wf (es : List Expr) {ds : List Diagram} (h : Expr.evalList es = .ok ds) :
+    ∀ d ∈ ds, d.WF := by
+  match es with
+  | [] => simp only [Expr.evalList, Except.ok.injEq] at h; subst h; simp
+  | a :: as =>
+    simp only [Expr.evalList] at h
+    split at h
+    · cases h
+    · rename_i x hx
+      split at h
+      · cases h
+      · rename_i xs hxs
+        simp only [Except.ok.injEq] at h; subst h
+        intro d hd
+        rcases List.mem_cons.mp hd with rfl | hd
+        · exact Expr.eval_wf a hx
+        · exact Expr.evalList_wf as hxs d hd
+end
 
 end DV
